@@ -90,6 +90,7 @@ class Evaluator:
                bindings=None, max_depth=10, unroll=24, inline_external=None):
     self.model = model
     self.decide_hook = decide
+    self.attr_hook = None
     self.opaque = set(opaque)
     self.summaries = dict(summaries or {})
     self.bindings = dict(bindings or {})  # (func short fq, param) -> term
@@ -478,6 +479,22 @@ class Evaluator:
     self._note_mutation(tgt, cur, meth, scope, call)
     new = None
     star_dom = self.loop_stack[-1] if self.loop_stack else None
+    if cur.op == 'list' and meth in ('pop', 'insert', 'remove') and not any(e.op == 'star' for e in cur.args) \
+        and all(is_const(a) for a in args) and star_dom is None:
+      items = list(cur.args)
+      try:
+        if meth == 'pop':
+          items.pop(*[cval(a) for a in args])
+        elif meth == 'insert':
+          items.insert(cval(args[0]), args[1])
+        else:
+          items.remove(args[0])
+        new = T('list', *items)
+      except Exception:
+        new = None
+      if new is not None:
+        self.assign(tgt, new, scope, quiet=True)
+        return True
     if cur.op == 'list' and meth in ('append', 'extend'):
       if meth == 'append':
         elts = [args[0]]
@@ -636,8 +653,13 @@ class Evaluator:
         return T('zipped', *[self.elem_of(x) for x in a])
       if name == 'enumerate' and a:
         return tup(T('index', a[0]), self.elem_of(a[0]))
-      if name in ('reversed', 'list', 'tuple', 'sorted', 'iter') and a:
+      if name in ('list', 'tuple', 'iter') and a:
         return self.elem_of(a[0])
+      if name in ('reversed', 'sorted') and a:
+        inner = self.elem_of(a[0])
+        if inner.op == 'elem' or a[0].op in ('attr', 'sym'):
+          return T('elem', it)
+        return inner
       if name == 'range':
         return T('rangevar', *a)
       if name == 'map' and len(a) >= 2:
@@ -852,6 +874,10 @@ class Evaluator:
     return self.attr(self.ev(n.value, scope), n.attr, n)
 
   def attr(self, base, name, n=None):
+    if self.attr_hook is not None:
+      r = self.attr_hook(self, base, name)
+      if r is not None:
+        return r
     op = base.op
     if op == 'mod':
       sc = self.module_scope(base.args[0])
@@ -1019,6 +1045,9 @@ class Evaluator:
         return out
       self.assign(g.target, self.elem_of(it), sc)
       conds = [self.ev(cnd, sc) for cnd in g.ifs]
+      if any(self.decide(c) is False for c in conds):
+        return []
+      conds = [c for c in conds if self.decide(c) is not True]
       inner = rec(gi + 1)
       dom = T('compdom', it, *conds)
       if kind == 'dict':
@@ -1043,6 +1072,17 @@ class Evaluator:
 
   # ------------------------------------------------------------ calls
   def ev_Call(self, n, scope):
+    if isinstance(n.func, ast.Attribute) and n.func.attr == 'pop' and isinstance(n.func.value, ast.Name) and not n.keywords:
+      cur = self.ev(n.func.value, scope)
+      idx = [self.ev(a, scope) for a in n.args]
+      if cur.op == 'list' and not any(e.op == 'star' for e in cur.args) and all(is_const(i) for i in idx) and not self.loop_stack:
+        items = list(cur.args)
+        try:
+          val = items.pop(*[cval(i) for i in idx])
+          self.assign(n.func.value, T('list', *items), scope, quiet=True)
+          return val
+        except Exception:
+          pass
     f = self.ev(n.func, scope)
     args = []
     for a in n.args:
@@ -1369,6 +1409,12 @@ class Evaluator:
       return const(abs(cval(a[0])))
     if name in ('min', 'max') and a and all(is_const(x) and isinstance(cval(x), (int, float)) for x in a) and len(a) > 1:
       return const(getattr(_builtins, name)(*[cval(x) for x in a]))
+    if name in ('min', 'max') and len(a) == 1 and a[0].op in ('list', 'tuple') and all(is_const(x) for x in a[0].args):
+      vals = [cval(x) for x in a[0].args]
+      if vals:
+        return const(getattr(_builtins, name)(vals))
+      if 'default' in kwargs:
+        return kwargs['default']
     if name == 'sum' and len(a) == 1 and a[0].op in ('list', 'tuple') and all(is_const(x) for x in a[0].args):
       try:
         return const(sum(cval(x) for x in a[0].args))
@@ -1637,6 +1683,8 @@ class Evaluator:
         bound[p] = given[p]
       elif i == 0 and self_t is not None:
         bound[p] = self_t
+      elif i == 0 and p == 'self' and fi.cls is not None:
+        bound[p] = T('obj', fi.cls.fq, 'self')
       else:
         b = self.bindings.get((fi.short, p))
         bound[p] = b if b is not None else sym('param', fi.short, p)
